@@ -14,6 +14,18 @@ TRUSTED = ("networkx.MultiDiGraph is modelled by its abstract content (list of k
 CODE_OF_ERR = {v: k for k, v in ERR_CODES.items()}
 
 
+
+def ir_by_parents(g, node):
+    """the IR a CFG node belongs to, read one parent attribute at a time with `is None` tests only"""
+    if isinstance(node, g.ProxyBlock):
+        m = node.module
+    else:
+        bi = node.byte_interval
+        sec = None if bi is None else bi.section
+        m = None if sec is None else sec.module
+    return None if m is None else m.ir
+
+
 class Env:
     """4 nodes attached to the IR owning the CFG, 1 attached to another IR, 2 detached (a proxy and a code block), 2 detached proxies that share a UUID with another proxy"""
 
@@ -27,8 +39,11 @@ class Env:
         bi = g.ByteInterval(size=64, section=s)
         s2 = g.Section(name="s", module=m2)
         bi2 = g.ByteInterval(size=64, section=s2)
+        # (one block starts in a DEFAULT interval -- ByteInterval() with nothing said: no address, size 0, no bytes -- and is of size 0
+        # itself: an empty container is a container, the block belongs to this IR like the others)
+        bi0 = g.ByteInterval(section=s)
         self.nodes = [g.CodeBlock(size=1, offset=0, byte_interval=bi), g.CodeBlock(size=1, offset=4, byte_interval=bi),
-                      g.ProxyBlock(module=m), g.CodeBlock(size=2, offset=8, byte_interval=bi),
+                      g.ProxyBlock(module=m), g.CodeBlock(size=0, offset=0, byte_interval=bi0),
                       g.CodeBlock(size=1, offset=0, byte_interval=bi2), g.ProxyBlock(), g.CodeBlock(size=1, offset=2)]
         # nodes are compared by IDENTITY: two more proxies, distinct objects carrying the UUID of the detached proxy (6) and of the
         # attached one (3) -- e.g. the same external block seen through two loads.  They stay detached (MOVABLE excludes them).
@@ -112,11 +127,11 @@ def run_history(ctx, g, rng, length):
             og = sorted(env.canon_edge(e) for e in node.outgoing_edges)
             ig = sorted(env.canon_edge(e) for e in node.incoming_edges)
             # a node's own views follow the CFG of the IR it CURRENTLY belongs to (the other IR's CFG is empty, a detached node has none)
-            attached_here = node.ir is env.ir
+            attached_here = ir_by_parents(g, node) is env.ir          # (containment read link by link: not through the accessor the views use)
             if og != (oe if attached_here else []):
-                problems.append("n%d.outgoing_edges = %s while its IR is %s" % (n, og, "this one" if attached_here else ("another" if node.ir is not None else "none")))
+                problems.append("n%d.outgoing_edges = %s while its IR is %s" % (n, og, "this one" if attached_here else ("another" if ir_by_parents(g, node) is not None else "none")))
             if ig != (ie if attached_here else []):
-                problems.append("n%d.incoming_edges = %s while its IR is %s" % (n, ig, "this one" if attached_here else ("another" if node.ir is not None else "none")))
+                problems.append("n%d.incoming_edges = %s while its IR is %s" % (n, ig, "this one" if attached_here else ("another" if ir_by_parents(g, node) is not None else "none")))
             ctx.count("adjacency_observations", 2)
         for _ in range(4):
             t = rand_edge(rng, list(pool))
@@ -166,7 +181,7 @@ def run_history(ctx, g, rng, length):
         if rng.random() < 0.08:
             # the other way of obtaining a CFG: the IR is saved and LOADED, and the history goes on with the loaded IR's CFG and nodes
             # (possible when every endpoint in the set is attached to this IR, so that the file is self-contained)
-            att = [i for i, nd in enumerate(env.nodes) if nd.ir is env.ir]
+            att = [i for i, nd in enumerate(env.nodes) if ir_by_parents(g, nd) is env.ir]
             ids_att = {i + 1 for i in att}
             if all(k[0] in ids_att and k[1] in ids_att for k in shadow):
                 try:
